@@ -373,7 +373,11 @@ func Ziplist(t *rapid.T, elems [][]byte, labels map[string]bool) []byte {
 	b := make([]byte, 0, total)
 	b = binary.LittleEndian.AppendUint32(b, uint32(total))
 	b = binary.LittleEndian.AppendUint32(b, uint32(tail))
-	b = binary.LittleEndian.AppendUint16(b, uint16(len(elems)))
+	n := len(elems)
+	if n > 65535 {
+		n = 65535 // ZIPLIST_LENGTH saturates: UINT16_MAX means "walk the entries to count them"
+	}
+	b = binary.LittleEndian.AppendUint16(b, uint16(n))
 	b = append(b, body...)
 	return append(b, 0xff)
 }
